@@ -113,8 +113,10 @@ def prefetch_configs(tier, seed=1):
     -O0/-O2, and cache-line-size macro variants (they change the loop stride)."""
     L = ('AVEL_L1_CACHE_LINE_SIZE=32', 'AVEL_L2_CACHE_LINE_SIZE=128', 'AVEL_L3_CACHE_LINE_SIZE=256')
     if tier == 'quick':
+        # incl. the x86 scalar-feature sets that define AVEL_X86 without any SSE level (Cache.hpp's second preprocessor dimension)
         return [mk('g++', 'c++11', 'none'), mk('g++', 'c++11', 'SSE2'), mk('g++', 'c++17', 'AVX2'), mk('g++', 'c++20', 'full'),
-                mk('clang++', 'c++14', 'none', opt='-O0'), mk('clang++', 'c++11', 'SSE4_2', extra_defs=L), mk('g++', 'c++14', 'none', extra_defs=L, finl=True)]
+                mk('clang++', 'c++14', 'none', opt='-O0'), mk('clang++', 'c++11', 'SSE4_2', extra_defs=L), mk('g++', 'c++14', 'none', extra_defs=L, finl=True),
+                mk('g++', 'c++14', 'SCALAR', opt='-O0'), mk('clang++', 'c++20', 'X86')]
     out = vector_configs(tier, seed)
     out += [mk(cxx, 'c++11', ms, opt=o, extra_defs=L) for cxx in ('g++', 'clang++') for ms in ('none', 'SSE2', 'AVX2', 'full') for o in ('-O0', '-O2')]
     return out
